@@ -100,6 +100,27 @@ theorem copy_preserves (src : Dir) (s : List Chunk) (rid : String) (rechunk : Bo
     rw [hp.plain hre]
     simp [List.map_map, Function.comp_def, restore, setTarget]
 
+/-- Copying to SEVERAL destination frontends in one call (`target_frontend_id=None`): every one of
+them — not only the first — receives data that loads to exactly the rows of the source, over the
+same range, law-abiding, with metadata that agrees with its files. -/
+theorem copy_to_all_preserves (src : Dir) (s : List Chunk) (rid : String) (rechunk : Bool) (rechunkTo nTargets : Nat)
+    (hload : loadDir src = .ok s) (hl : Strax.LawAbiding s = true)
+    (hrid : s.head?.bind (·.runId) = some rid) (hplain : rid.startsWith "_" = false)
+    (hmd : src.1.hdr.runId.startsWith "_" = false) (ht : rechunk = true → 1 ≤ rechunkTo) :
+    (copyToAll Generated.getSplitsArgmin0 src rechunk rechunkTo nTargets).length = nTargets ∧
+    ∀ r ∈ copyToAll Generated.getSplitsArgmin0 src rechunk rechunkTo nTargets,
+      ∃ dst loaded out, r = .ok dst ∧ loadDir dst = .ok loaded ∧ rows loaded = rows s ∧
+        loaded.head?.map (·.start) = s.head?.map (·.start) ∧
+        loaded.getLast?.map (·.stop) = s.getLast?.map (·.stop) ∧
+        Strax.LawAbiding loaded = true ∧ boundaryRuleB s loaded = true ∧
+        MetaConsistent (copyHeader src.1.hdr rechunk rechunkTo) dst.1 dst.2 out ∧ rows out = rows s := by
+  refine ⟨by simp [copyToAll], ?_⟩
+  intro r hr
+  have hr' : r = copyData Generated.getSplitsArgmin0 src rechunk rechunkTo := List.eq_of_mem_replicate hr
+  obtain ⟨dst, loaded, out, h1, h2, h3, h4, h5, h6, _, _, h9, _, h11, h12⟩ :=
+    copy_preserves src s rid rechunk rechunkTo hload hl hrid hplain hmd ht
+  exact ⟨dst, loaded, out, by rw [hr', h1], h2, h3, h4, h5, h6, h9, h11, h12⟩
+
 /-! ## 2. the stand-alone rechunker -/
 
 /-- Rewriting stored data with the stand-alone rechunker — any target size of at least one row
